@@ -1106,6 +1106,7 @@ def _request_items(t, data, dec_of, lay, ktypes, evdec):
             # selectors the kernel's (address/prefix, port/mask) form cannot express lie outside C14's quantifier
             # (networks and single ports): that the negotiation can produce them is C12's matter (finding F12).
             # The item is kept as a note so the evidence shows what the request carries for such input
+            _INEXPRESSIBLE[:] = [not fails, detail]
             yield (item, True, 'NOTE (C12, finding F12; not a C14 obligation): ' + detail, 'bounded')
             continue
         yield (item, not fails, detail, 'bounded')
@@ -1155,6 +1156,9 @@ def _oracle_selfcheck(events, evdec, K):
             raise RuntimeError('oracle self-check (C encode -> C decode) failed: ' + '; '.join(errs[:5]))
 
 
+_INEXPRESSIBLE = []
+
+
 def _request_facts(t):
     with _Oracle() as o:
         lay = o.layout()
@@ -1171,3 +1175,19 @@ def _request_facts(t):
 evalfact('xfrm-requests', ['C14'], _request_facts,
          'request builders emit, and the event parser reads, what the kernel structures say (bounded differential check '
          'against a C decoder/encoder compiled from the UAPI headers)')
+
+
+def _selector_facts(t):
+    """C12: the kernel selectors of an installed CHILD_SA denote exactly the negotiated traffic selectors.  Same driver
+    as xfrm-requests; only the item that feeds create_child_sa with selectors the (address/prefix, port/mask) form
+    cannot express is reported here (bounded)"""
+    for _ in _request_facts(t):
+        pass
+    if not _INEXPRESSIBLE:
+        yield ('bounded-kernel-selectors-exact', False, 'the driver produced no case of this kind', 'bounded')
+    else:
+        yield ('bounded-kernel-selectors-exact', _INEXPRESSIBLE[0], _INEXPRESSIBLE[1], 'bounded')
+
+
+evalfact('xfrm-selectors', ['C12'], _selector_facts,
+         'kernel selectors installed for a CHILD_SA denote exactly its negotiated traffic selectors (bounded)')
